@@ -483,7 +483,7 @@ Qed.
 
 Lemma rel_attr_id : forall acc v, rel_attr acc (s_Id, v) = acc.
 Proof. reflexivity. Qed.
-Lemma rel_attr_type : forall acc v, rel_attr acc (s_Type, v) = (fst acc, str_eqb v s_table_type).
+Lemma rel_attr_type : forall acc v, rel_attr acc (s_Type, v) = (fst acc, is_table_type v).
 Proof. reflexivity. Qed.
 Lemma rel_attr_target : forall acc v, rel_attr acc (s_Target, v) = (v, snd acc).
 Proof. reflexivity. Qed.
@@ -507,15 +507,21 @@ Proof.
   apply IH. exact H2.
 Qed.
 
-Definition table_plain (tc : table_l * table_choice) : Prop :=
-  tc_target (snd tc) = TgtDotDot /\ tc_type (snd tc) = TyTransitional.
+(* the two legal ways of writing the target and the two legal relationship type URIs *)
+Definition table_rel_ok (tc : table_l * table_choice) : Prop :=
+  (tc_target (snd tc) = TgtDotDot \/ tc_target (snd tc) = TgtAbsolute) /\
+  (tc_type (snd tc) = TyTransitional \/ tc_type (snd tc) = TyStrict).
 
-Lemma resolve_dotdot : forall part,
-  resolve_target s_xl_worksheets_dir (s_dd_tables ++ part) = Ok (Some (s_xl_tables ++ part)).
-Proof. intros part. reflexivity. Qed.
+Lemma resolve_legal : forall c, tc_target c = TgtDotDot \/ tc_target c = TgtAbsolute ->
+  resolve_target s_xl_worksheets_dir (target_text c) = Ok (Some (table_part_path c)).
+Proof. intros c [E|E]; unfold target_text, table_part_path; rewrite E; reflexivity. Qed.
+
+Lemma type_legal : forall c, tc_type c = TyTransitional \/ tc_type c = TyStrict ->
+  is_table_type (type_text c) = true.
+Proof. intros c [E|E]; unfold type_text; rewrite E; reflexivity. Qed.
 
 Lemma scan_rels_tables : forall pp tabs rest,
-  prefix_ok pp = true -> Forall table_plain tabs ->
+  prefix_ok pp = true -> Forall table_rel_ok tabs ->
   scan_rels s_xl_worksheets_dir (flat_map (fun tc => enc_relationship pp (snd tc)) tabs ++ rest) =
   do r <- scan_rels s_xl_worksheets_dir rest;
   Ok (map (fun tc => table_part_path (snd tc)) tabs ++ r).
@@ -530,20 +536,19 @@ Proof.
                   (if tc_target_first c
                    then [(s_Target, target_text c); (s_Id, tc_rid c); (s_Type, type_text c)]
                    else [(s_Id, tc_rid c); (s_Type, type_text c); (s_Target, target_text c)])
-                  ([], false) = (s_dd_tables ++ tc_part c, true)).
-    { unfold target_text, type_text. rewrite P1, P2.
-      destruct (tc_target_first c); cbn [fold_left];
+                  ([], false) = (target_text c, true)).
+    { destruct (tc_target_first c); cbn [fold_left];
         rewrite ?rel_attr_id, ?rel_attr_type, ?rel_attr_target; cbn [fst snd];
         rewrite ?rel_attr_id, ?rel_attr_type, ?rel_attr_target; cbn [fst snd];
-        rewrite str_eqb_refl; reflexivity. }
-    rewrite F. rewrite resolve_dotdot. cbn [obind].
+        rewrite (type_legal _ P2); reflexivity. }
+    rewrite F. rewrite (resolve_legal _ P1). cbn [obind].
     assert (Q : str_eqb s_Relationship s_Relationships = false) by reflexivity. rewrite Q.
     rewrite IH by exact HP2.
     destruct (scan_rels s_xl_worksheets_dir rest); reflexivity.
 Qed.
 
 Lemma scan_enc_rels : forall s,
-  sheet_legal s = true -> Forall table_plain (se_tables s) ->
+  sheet_legal s = true -> Forall table_rel_ok (se_tables s) ->
   scan_rels s_xl_worksheets_dir (enc_rels s) =
   Ok (map (fun tc => table_part_path (snd tc)) (se_tables s)).
 Proof.
@@ -554,6 +559,195 @@ Proof.
   rewrite scan_rels_other by assumption. rewrite scan_rels_tables by assumption.
   cbn [scan_rels]. rewrite (local_name_qn _ _ D no_colon_Relationships). rewrite str_eqb_refl.
   cbn [obind]. rewrite app_nil_r. reflexivity.
+Qed.
+
+(* ------------------------------------------------------------------ unescaping a spelled name *)
+Lemma radix_acc_app : forall val radix a b acc,
+  radix_acc val radix (a ++ b) acc =
+  match radix_acc val radix a acc with Some v => radix_acc val radix b v | None => None end.
+Proof.
+  intros val radix. induction a as [|c a IH]; intros b acc; cbn [app radix_acc]; [reflexivity|].
+  destruct (val c); [apply IH|reflexivity].
+Qed.
+
+Lemma pow_nat_pos : forall b w, 0 < b -> 0 < pow_nat b w.
+Proof. intros b w Hb. induction w as [|w IH]; cbn [pow_nat]; nia. Qed.
+
+Lemma radix_acc_num_w : forall val dig radix,
+  1 < radix -> (forall x, x < radix -> val (dig x) = Some x) ->
+  forall w n acc, radix_acc val radix (num_w dig radix w n) acc =
+                  Some (acc * pow_nat radix w + n mod pow_nat radix w).
+Proof.
+  intros val dig radix HR HV. induction w as [|w IH]; intros n acc; cbn [num_w pow_nat radix_acc].
+  - rewrite N.mod_1_r. f_equal. lia.
+  - rewrite radix_acc_app, IH. cbn [radix_acc].
+    rewrite HV by (apply N.mod_lt; lia). f_equal.
+    pose proof (pow_nat_pos w (b := radix)) as PP.
+    rewrite (N.mod_mul_r n radix (pow_nat radix w)) by lia. ring.
+Qed.
+
+Lemma num_w_chars : forall dig radix (P : N -> Prop),
+  1 < radix -> (forall x, x < radix -> P (dig x)) -> forall w n, Forall P (num_w dig radix w n).
+Proof.
+  intros dig radix P HR HP. induction w as [|w IH]; intros n; cbn [num_w]; [constructor|].
+  apply Forall_app. split; [apply IH|]. constructor; [|constructor]. apply HP. apply N.mod_lt. lia.
+Qed.
+
+Lemma num_w_nonempty : forall dig radix w n, num_w dig radix (S w) n <> [].
+Proof. intros dig radix w n H. cbn [num_w] in H. apply app_eq_nil in H. destruct H as [_ H]. discriminate H. Qed.
+
+Definition plain_char (c : N) : Prop := (c =? ch_amp) = false /\ (c =? ch_semi) = false.
+
+Lemma decdig_ok : forall x, x < 10 ->
+  decval (decdig x) = Some x /\ plain_char (decdig x) /\ (decdig x =? ch_x) = false.
+Proof.
+  intros x H.
+  assert (E : x = 0 \/ x = 1 \/ x = 2 \/ x = 3 \/ x = 4 \/ x = 5 \/ x = 6 \/ x = 7 \/ x = 8 \/ x = 9) by lia.
+  repeat (destruct E as [E|E]; [subst; repeat split; reflexivity|]). subst; repeat split; reflexivity.
+Qed.
+
+Lemma hexdig_ok : forall up x, x < 16 -> hexval (hexdig up x) = Some x /\ plain_char (hexdig up x).
+Proof.
+  intros up x H.
+  assert (E : x = 0 \/ x = 1 \/ x = 2 \/ x = 3 \/ x = 4 \/ x = 5 \/ x = 6 \/ x = 7 \/ x = 8 \/ x = 9 \/
+              x = 10 \/ x = 11 \/ x = 12 \/ x = 13 \/ x = 14 \/ x = 15) by lia.
+  destruct up;
+    repeat (destruct E as [E|E]; [subst; repeat split; reflexivity|]); subst; repeat split; reflexivity.
+Qed.
+
+Lemma xml_char_facts : forall c, xml_char c = true ->
+  c <= U32MAX /\ (c =? 0) = false /\ is_scalar c = true.
+Proof.
+  intros c H. unfold xml_char in H. unfold is_scalar, U32MAX.
+  rewrite !orb_true_iff, !andb_true_iff, !N.eqb_eq, !N.leb_le in H.
+  assert (R : c = 9 \/ c = 10 \/ c = 13 \/ (32 <= c /\ c <= 55295) \/ (57344 <= c /\ c <= 65533) \/
+              (65536 <= c /\ c <= 1114111)) by tauto.
+  clear H. split; [lia|]. split; [apply N.eqb_neq; lia|].
+  apply orb_true_iff. destruct (N.ltb_spec c 55296); [left; reflexivity|right].
+  apply andb_true_iff. split; [apply N.ltb_lt|apply N.leb_le]; lia.
+Qed.
+
+Lemma from_radix_num_w : forall val dig radix w cp,
+  1 < radix -> (forall x, x < radix -> val (dig x) = Some x) ->
+  cp < pow_nat radix (S w) -> cp <= U32MAX ->
+  from_str_radix val radix (num_w dig radix (S w) cp) = Some cp.
+Proof.
+  intros val dig radix w cp HR HV Hlt Hmax. unfold from_str_radix.
+  destruct (num_w dig radix (S w) cp) eqn:E; [exfalso; exact (num_w_nonempty _ _ _ _ E)|].
+  rewrite <- E. rewrite radix_acc_num_w by assumption.
+  rewrite N.mod_small by exact Hlt. cbn [N.mul]. rewrite N.mul_0_l, N.add_0_l.
+  apply N.leb_le in Hmax. rewrite Hmax. reflexivity.
+Qed.
+
+Lemma width_pos : forall radix w cp, xml_char cp = true -> cp < pow_nat radix w -> exists k, w = S k.
+Proof.
+  intros radix [|k] cp HX H; [|exists k; reflexivity]. cbn [pow_nat] in H.
+  destruct (xml_char_facts _ HX) as (_ & Z & _). apply N.eqb_neq in Z. lia.
+Qed.
+
+Lemma parse_dec_ref : forall cp w, xml_char cp = true -> cp < pow_nat 10 w ->
+  parse_char_ref (num_w decdig 10 w cp) = Some cp.
+Proof.
+  intros cp w HX Hlt. destruct (width_pos _ _ HX Hlt) as [k ->].
+  destruct (xml_char_facts _ HX) as (M & Z & S).
+  assert (HV : forall x, x < 10 -> decval (decdig x) = Some x) by (intros x Hx; apply (decdig_ok Hx)).
+  pose proof (@from_radix_num_w decval decdig 10 k cp ltac:(lia) HV Hlt M) as F.
+  pose proof (@num_w_chars decdig 10 (fun c => (c =? ch_x) = false) ltac:(lia)
+                (fun x Hx => proj2 (proj2 (decdig_ok Hx))) (Datatypes.S k) cp) as C.
+  unfold parse_char_ref.
+  destruct (num_w decdig 10 (Datatypes.S k) cp) as [|c hex] eqn:E;
+    [exfalso; exact (num_w_nonempty _ _ _ _ E)|].
+  inversion C as [|? ? C1 _]; subst. rewrite C1, F, Z, S. reflexivity.
+Qed.
+
+Lemma parse_hex_ref : forall cp w up, xml_char cp = true -> cp < pow_nat 16 w ->
+  parse_char_ref (ch_x :: num_w (hexdig up) 16 w cp) = Some cp.
+Proof.
+  intros cp w up HX Hlt. destruct (width_pos _ _ HX Hlt) as [k ->].
+  destruct (xml_char_facts _ HX) as (M & Z & S).
+  assert (HV : forall x, x < 16 -> hexval (hexdig up x) = Some x) by (intros x Hx; apply (hexdig_ok up Hx)).
+  pose proof (@from_radix_num_w hexval (hexdig up) 16 k cp ltac:(lia) HV Hlt M) as F.
+  unfold parse_char_ref. rewrite N.eqb_refl, F, Z, S. reflexivity.
+Qed.
+
+Lemma unesc_lit_app : forall b rest, forallb lit_ok b = true ->
+  unesc_go (b ++ rest) None = do r <- unesc_go rest None; Ok (b ++ r).
+Proof.
+  induction b as [|c b IH]; intros rest H; cbn [app].
+  - destruct (unesc_go rest None); reflexivity.
+  - cbn [forallb] in H. apply andb_true_iff in H. destruct H as [H1 H2].
+    unfold lit_ok in H1. apply negb_true_iff in H1. rewrite !orb_false_iff in H1.
+    destruct H1 as [[[[[A _] _] _] _] _].
+    cbn [unesc_go]. unfold ch_amp. rewrite A. rewrite IH by exact H2.
+    destruct (unesc_go rest None); reflexivity.
+Qed.
+
+Lemma unesc_pend_app : forall p rest acc, Forall plain_char p ->
+  unesc_go (p ++ ch_semi :: rest) (Some acc) =
+  do e <- resolve_entity (rev acc ++ p); do r <- unesc_go rest None; Ok (e ++ r).
+Proof.
+  induction p as [|c p IH]; intros rest acc H; cbn [app].
+  - cbn [unesc_go]. rewrite N.eqb_refl. rewrite app_nil_r. reflexivity.
+  - inversion H as [|? ? [A B] H']; subst. cbn [unesc_go]. rewrite A, B.
+    rewrite IH by exact H'. cbn [rev]. rewrite <- app_assoc. reflexivity.
+Qed.
+
+Lemma unesc_entity : forall pat rest, Forall plain_char pat ->
+  unesc_go (ch_amp :: pat ++ ch_semi :: rest) None =
+  do e <- resolve_entity pat; do r <- unesc_go rest None; Ok (e ++ r).
+Proof.
+  intros pat rest H. cbn [unesc_go]. rewrite N.eqb_refl. rewrite unesc_pend_app by exact H.
+  reflexivity.
+Qed.
+
+Lemma unesc_piece : forall p rest, piece_legal p = true ->
+  unesc_go (render_piece p ++ rest) None = do r <- unesc_go rest None; Ok (piece_value p ++ r).
+Proof.
+  intros [b|c|cp w|cp w up] rest H; cbn [piece_legal render_piece piece_value] in *.
+  - apply unesc_lit_app. exact H.
+  - rewrite !orb_true_iff, !N.eqb_eq in H.
+    assert (P : forall n v, Forall plain_char n -> resolve_entity n = Ok [v] ->
+                unesc_go (([ch_amp] ++ n ++ [ch_semi]) ++ rest) None =
+                do r <- unesc_go rest None; Ok ([v] ++ r)).
+    { intros n v F R. cbn [app]. rewrite <- app_assoc. cbn [app]. rewrite unesc_entity by exact F.
+      rewrite R. reflexivity. }
+    destruct H as [[[[H|H]|H]|H]|H]; subst c; apply P;
+      try reflexivity; repeat constructor.
+  - apply andb_true_iff in H. destruct H as [HX Hlt]. apply N.ltb_lt in Hlt.
+    replace (([ch_amp; ch_hash] ++ num_w decdig 10 w cp ++ [ch_semi]) ++ rest)
+      with (ch_amp :: (ch_hash :: num_w decdig 10 w cp) ++ ch_semi :: rest)
+      by (cbn [app]; rewrite <- app_assoc; reflexivity).
+    rewrite unesc_entity.
+    + cbn [resolve_entity]. rewrite N.eqb_refl. rewrite parse_dec_ref by assumption. reflexivity.
+    + constructor; [split; reflexivity|].
+      apply num_w_chars; [lia|]. intros x Hx. apply (decdig_ok Hx).
+  - apply andb_true_iff in H. destruct H as [HX Hlt]. apply N.ltb_lt in Hlt.
+    replace (([ch_amp; ch_hash; ch_x] ++ num_w (hexdig up) 16 w cp ++ [ch_semi]) ++ rest)
+      with (ch_amp :: (ch_hash :: ch_x :: num_w (hexdig up) 16 w cp) ++ ch_semi :: rest)
+      by (cbn [app]; rewrite <- app_assoc; reflexivity).
+    rewrite unesc_entity.
+    + cbn [resolve_entity]. rewrite N.eqb_refl. rewrite parse_hex_ref by assumption. reflexivity.
+    + constructor; [split; reflexivity|]. constructor; [split; reflexivity|].
+      apply num_w_chars; [lia|]. intros x Hx. apply (hexdig_ok up Hx).
+Qed.
+
+Lemma unesc_render : forall sp rest, sp_legal sp = true ->
+  unesc_go (render_sp sp ++ rest) None = do r <- unesc_go rest None; Ok (sp_value sp ++ r).
+Proof.
+  unfold sp_legal, render_sp, sp_value.
+  induction sp as [|p sp IH]; intros rest H; cbn [flat_map app].
+  - destruct (unesc_go rest None); reflexivity.
+  - cbn [forallb] in H. apply andb_true_iff in H. destruct H as [H1 H2].
+    rewrite <- app_assoc. rewrite unesc_piece by exact H1. rewrite IH by exact H2.
+    destruct (unesc_go rest None); cbn [obind]; try reflexivity. rewrite app_assoc. reflexivity.
+Qed.
+
+(* unescape_render: every legal spelling of a name — literal text, the five predefined entities,
+   decimal and hexadecimal character references with leading zeros — reads back as the name *)
+Theorem unescape_render : forall sp, sp_legal sp = true -> unescape (render_sp sp) = Ok (sp_value sp).
+Proof.
+  intros sp H. unfold unescape. rewrite <- (app_nil_r (render_sp sp)).
+  rewrite unesc_render by exact H. cbn [unesc_go obind]. rewrite app_nil_r. reflexivity.
 Qed.
 
 (* ------------------------------------------------------------------ xlsx tables: the table part *)
@@ -598,38 +792,47 @@ Proof.
   cbn [table_attrs]. rewrite table_attr_plain by exact H1. cbn [obind]. apply IH. exact H2.
 Qed.
 
+(* what the insertRow attribute, as written, means to the code *)
 Definition insert_flag (c : table_choice) : bool :=
   match tc_insert c with
-  | IrAbsent | IrZero => false
-  | IrFalse => true
-  | IrRaw s => negb (str_eqb s s_zero)
+  | IrAbsent | IrZero | IrFalse => false
+  | IrOne | IrTrue => true
+  | IrRaw s => str_eqb s s_one || str_eqb s s_true
   end.
 
+Lemma insert_flag_legal : forall ins c, insert_legal ins (tc_insert c) = true -> insert_flag c = ins.
+Proof.
+  intros ins c H. unfold insert_flag. destruct (tc_insert c); cbn in H;
+    try (apply negb_true_iff in H); try discriminate; auto.
+Qed.
+
 Lemma table_attrs_of_ok : forall t c,
-  existsb table_special_key (tc_extra c) = false ->
+  existsb table_special_key (tc_extra c) = false -> sp_legal (tc_name_sp c) = true ->
   tl_header t <= U32MAX -> tl_totals t <= U32MAX ->
   table_attrs tmeta_init (table_attrs_of t c) =
-  Ok (mkTmeta (esc (tl_name t)) (render_ref (tc_ref_style c) (tc_ref_lower c) (tl_ref t))
+  Ok (mkTmeta (sp_value (tc_name_sp c)) (render_ref (tc_ref_style c) (tc_ref_lower c) (tl_ref t))
               (tl_header t) (insert_flag c) (tl_totals t)).
 Proof.
-  intros t c HX Hh Hk. unfold table_attrs_of.
+  intros t c HX HS Hh Hk. unfold table_attrs_of.
   rewrite table_attrs_app, table_attrs_plain by exact HX. cbn [obind].
   rewrite table_attrs_app. cbn [table_attrs].
   assert (A1 : forall m v, table_attr m (s_name, v) = Ok m) by reflexivity.
   assert (A2 : forall m v, table_attr m (s_displayName, v) =
-            Ok (mkTmeta v (tm_ref m) (tm_header m) (tm_insert m) (tm_totals m))) by reflexivity.
+            do u <- unescape v; Ok (mkTmeta u (tm_ref m) (tm_header m) (tm_insert m) (tm_totals m)))
+    by reflexivity.
   assert (A3 : forall m v, table_attr m (s_ref, v) =
             Ok (mkTmeta (tm_name m) v (tm_header m) (tm_insert m) (tm_totals m))) by reflexivity.
   assert (A4 : forall m v, table_attr m (s_headerRowCount, v) =
             do n <- parse_u32 v; Ok (mkTmeta (tm_name m) (tm_ref m) n (tm_insert m) (tm_totals m)))
     by reflexivity.
   assert (A5 : forall m v, table_attr m (s_insertRow, v) =
-            Ok (mkTmeta (tm_name m) (tm_ref m) (tm_header m) (negb (str_eqb v s_zero)) (tm_totals m)))
+            Ok (mkTmeta (tm_name m) (tm_ref m) (tm_header m) (str_eqb v s_one || str_eqb v s_true) (tm_totals m)))
     by reflexivity.
   assert (A6 : forall m v, table_attr m (s_totalsRowCount, v) =
             do n <- parse_u32 v; Ok (mkTmeta (tm_name m) (tm_ref m) (tm_header m) (tm_insert m) n))
     by reflexivity.
-  rewrite A1. cbn [obind]. rewrite A2. cbn [obind]. rewrite A3. cbn [obind].
+  rewrite A1. cbn [obind]. rewrite A2. rewrite unescape_render by exact HS.
+  cbn [obind]. rewrite A3. cbn [obind].
   unfold tmeta_init, insert_flag. cbn [tm_name tm_ref tm_header tm_insert tm_totals].
   assert (H1 : (tl_header t =? 1) && negb (tc_hdr_explicit c) = true -> tl_header t = 1).
   { intros E. apply andb_true_iff in E. destruct E as [E _]. apply N.eqb_eq in E. exact E. }
@@ -667,55 +870,83 @@ Proof.
   - cbn in H1. apply negb_true_iff in H1. rewrite H1. apply IH. exact H2.
 Qed.
 
-Lemma column_names_one : forall i v extra, existsb (key_is s_name) extra = false ->
-  column_names ([(s_id, i); (s_name, v)] ++ extra) = [v].
+Lemma column_names_none : forall extra, existsb (key_is s_name) extra = false ->
+  column_names extra = Ok [].
 Proof.
-  intros i v extra H. unfold column_names. cbn [app filter fst].
-  assert (Q1 : str_eqb s_id s_name = false) by reflexivity. rewrite Q1. rewrite str_eqb_refl.
-  cbn [map snd]. f_equal.
-  induction extra as [|kv extra IH]; [reflexivity|].
+  induction extra as [|kv extra IH]; intros H; [reflexivity|].
   cbn in H. apply orb_false_iff in H. destruct H as [H1 H2]. unfold key_is in H1.
-  cbn [filter]. rewrite H1. apply IH. exact H2.
+  cbn [column_names]. rewrite H1. apply IH. exact H2.
+Qed.
+
+Lemma column_names_one : forall i sp extra,
+  existsb (key_is s_name) extra = false -> sp_legal sp = true ->
+  column_names ([(s_id, i); (s_name, render_sp sp)] ++ extra) = Ok [sp_value sp].
+Proof.
+  intros i sp extra H HS. cbn [app column_names fst snd].
+  assert (Q1 : str_eqb s_id s_name = false) by reflexivity. rewrite Q1. rewrite str_eqb_refl.
+  rewrite unescape_render by exact HS. cbn [obind]. rewrite column_names_none by exact H.
+  reflexivity.
 Qed.
 
 Lemma scan_table_columns : forall p extra cols i rest m acc,
-  prefix_ok p = true -> existsb (key_is s_name) extra = false ->
+  prefix_ok p = true -> existsb (key_is s_name) extra = false -> forallb sp_legal cols = true ->
   scan_table (enc_columns p extra i cols ++ rest) m acc =
-  scan_table rest m (acc ++ map esc cols).
+  scan_table rest m (acc ++ map sp_value cols).
 Proof.
-  intros p extra cols. induction cols as [|cn cols IH]; intros i rest m acc Hp HX.
+  intros p extra cols. induction cols as [|cn cols IH]; intros i rest m acc Hp HX HS.
   - cbn. rewrite app_nil_r. reflexivity.
-  - cbn [enc_columns]. cbn [app]. cbn [scan_table].
+  - cbn [forallb] in HS. apply andb_true_iff in HS. destruct HS as [HS1 HS2].
+    cbn [enc_columns]. cbn [app]. cbn [scan_table].
     rewrite (local_name_qn _ _ Hp no_colon_tableColumn).
     assert (Q1 : str_eqb s_tableColumn s_table = false) by reflexivity. rewrite Q1.
     rewrite str_eqb_refl.
-    change ((s_id, dec i) :: (s_name, esc cn) :: extra) with ([(s_id, dec i); (s_name, esc cn)] ++ extra).
-    rewrite column_names_one by exact HX.
+    change ((s_id, dec i) :: (s_name, render_sp cn) :: extra)
+      with ([(s_id, dec i); (s_name, render_sp cn)] ++ extra).
+    rewrite column_names_one by assumption. cbn [obind].
     rewrite IH by assumption. cbn [map]. rewrite <- app_assoc. reflexivity.
+Qed.
+
+Lemma strs_eqb_eq : forall a b, strs_eqb a b = true -> a = b.
+Proof.
+  induction a as [|x a IH]; intros [|y b] H; cbn in H; try discriminate; [reflexivity|].
+  apply andb_true_iff in H. destruct H as [H1 H2]. apply str_eqb_eq in H1. apply IH in H2.
+  subst. reflexivity.
 Qed.
 
 Lemma table_choice_legal_parts : forall tc, table_choice_legal tc = true ->
   ref_style_legal (tc_ref_style (snd tc)) (tl_ref (fst tc)) = true /\
+  table_rel_ok tc /\
+  insert_flag (snd tc) = tl_insert (fst tc) /\
+  sp_legal (tc_name_sp (snd tc)) = true /\ sp_value (tc_name_sp (snd tc)) = tl_name (fst tc) /\
+  forallb sp_legal (tc_cols_sp (snd tc)) = true /\
+  map sp_value (tc_cols_sp (snd tc)) = tl_cols (fst tc) /\
   existsb table_special_key (tc_extra (snd tc)) = false /\
   existsb (key_is s_name) (tc_col_extra (snd tc)) = false /\
   prefix_ok (tc_prefix (snd tc)) = true /\
   forallb table_quiet (tc_pre (snd tc)) = true.
 Proof.
-  intros tc H. unfold table_choice_legal in H. rewrite !andb_true_iff in H.
-  destruct H as [[[[[[[[[A _] _] _] B] C] D] E] _] _].
-  apply negb_true_iff in B. apply negb_true_iff in C. auto.
+  intros [t c] H. unfold table_choice_legal in H. cbn [fst snd] in *.
+  rewrite !andb_true_iff in H.
+  destruct H as [[[[[[[[[[[[[A1 A2] A3] A4] A5] A6] A7] A8] A9] A10] A11] A12] _] _].
+  apply negb_true_iff in A9. apply negb_true_iff in A10.
+  apply str_eqb_eq in A6. apply strs_eqb_eq in A8.
+  repeat split; try assumption.
+  - cbn [snd]. destruct (tc_target c); try discriminate; auto.
+  - cbn [snd]. destruct (tc_type c); try discriminate; auto.
+  - apply insert_flag_legal. exact A4.
 Qed.
 
 Lemma scan_enc_table : forall tc,
   table_choice_legal tc = true -> tl_header (fst tc) <= U32MAX -> tl_totals (fst tc) <= U32MAX ->
   scan_table (enc_table tc) tmeta_init [] =
-  Ok (mkTmeta (esc (tl_name (fst tc)))
+  Ok (mkTmeta (tl_name (fst tc))
               (render_ref (tc_ref_style (snd tc)) (tc_ref_lower (snd tc)) (tl_ref (fst tc)))
-              (tl_header (fst tc)) (insert_flag (snd tc)) (tl_totals (fst tc)),
-      map esc (tl_cols (fst tc))).
+              (tl_header (fst tc)) (tl_insert (fst tc)) (tl_totals (fst tc)),
+      tl_cols (fst tc)).
 Proof.
-  intros [t c] HL Hh Hk. destruct (table_choice_legal_parts _ HL) as (A & B & C & D & E).
-  cbn [fst snd] in *. unfold enc_table. cbn [fst snd].
+  intros tc HL Hh Hk.
+  destruct (table_choice_legal_parts _ HL) as (A & _ & F & S1 & S2 & S3 & S4 & B & C & D & E).
+  destruct tc as [t c]. cbn [fst snd] in *. unfold enc_table. cbn [fst snd].
   rewrite scan_table_quiet_app by exact E.
   cbn [app]. cbn [scan_table]. rewrite (local_name_qn _ _ D no_colon_table). rewrite str_eqb_refl.
   rewrite table_attrs_of_ok by assumption. cbn [obind].
@@ -728,77 +959,54 @@ Proof.
   assert (Q3 : str_eqb s_tableStyleInfo s_table = false) by reflexivity.
   assert (Q4 : str_eqb s_tableStyleInfo s_tableColumn = false) by reflexivity.
   rewrite Q3, Q4. rewrite (local_name_qn _ _ D no_colon_table). rewrite str_eqb_refl.
-  reflexivity.
+  rewrite F, S2, S4. reflexivity.
 Qed.
 
 (* ------------------------------------------------------------------ xlsx tables: geometry *)
-Lemma esc_id : forall s, needs_esc s = false -> esc s = s.
-Proof.
-  unfold needs_esc, esc. induction s as [|c s IH]; intros H; [reflexivity|].
-  cbn in H. apply orb_false_iff in H. destruct H as [H1 H2].
-  cbn [flat_map]. rewrite IH by exact H2.
-  unfold special in H1. rewrite !orb_false_iff in H1. destruct H1 as [[[A B] C] D].
-  unfold esc_char. rewrite A, B, C, D. reflexivity.
-Qed.
+(* the box the code stores for a table of the domain *)
+Definition impl_dims (t : table_l) : dims :=
+  let sr1 := fst (fst (tl_ref t)) + tl_header t in
+  let er := fst (snd (tl_ref t)) in
+  if tl_below t <=? er
+  then ((sr1, snd (fst (tl_ref t))), (er - tl_below t, snd (snd (tl_ref t))))
+  else ((N.max sr1 (er + 1), snd (fst (tl_ref t))), (er, snd (snd (tl_ref t)))).
 
-Lemma map_esc_id : forall l, existsb needs_esc l = false -> map esc l = l.
-Proof.
-  induction l as [|s l IH]; intros H; [reflexivity|].
-  cbn in H. apply orb_false_iff in H. destruct H as [H1 H2].
-  cbn [map]. rewrite esc_id by exact H1. rewrite IH by exact H2. reflexivity.
-Qed.
-
-(* a table outside every known class *)
-Lemma known_table_none : forall tc, known_table tc = None ->
-  table_plain tc /\ insert_flag (snd tc) = false \/ (exists s, tc_insert (snd tc) = IrRaw s) \/
-  (exists s, tc_target (snd tc) = TgtRaw s) \/ (exists s, tc_type (snd tc) = TyRaw s).
-Proof.
-  intros [t c] H. unfold known_table in H. cbn [fst snd] in *. unfold table_plain, insert_flag.
-  cbn [snd].
-  destruct (tc_target c) eqn:A; try discriminate; [|right; right; left; eexists; reflexivity].
-  destruct (tc_type c) eqn:B; try discriminate; [|right; right; right; eexists; reflexivity].
-  destruct (tc_insert c) eqn:C; try discriminate; auto.
-  right. left. eexists. reflexivity.
-Qed.
-
-Lemma known_legal_table : forall tc, known_table tc = None -> table_choice_legal tc = true ->
-  table_plain tc /\ insert_flag (snd tc) = false /\
-  needs_esc (tl_name (fst tc)) = false /\ existsb needs_esc (tl_cols (fst tc)) = false /\
-  fst (fst (tl_ref (fst tc))) + tl_header (fst tc) + tl_totals (fst tc) <> fst (snd (tl_ref (fst tc))) + 1.
-Proof.
-  intros [t c] K L. unfold known_table in K. unfold table_choice_legal in L.
-  cbn [fst snd] in *. rewrite !andb_true_iff in L. destruct L as [[[[[[[[[_ L1] L2] L3] _] _] _] _] _] _].
-  unfold table_plain, insert_flag. cbn [snd].
-  destruct (tc_target c); try discriminate.
-  destruct (tc_type c); try discriminate.
-  destruct (needs_esc (tl_name t) || existsb needs_esc (tl_cols t)) eqn:E.
-  - destruct (tc_insert c); discriminate.
-  - apply orb_false_iff in E. destruct E as [E1 E2].
-    destruct (fst (fst (tl_ref t)) + tl_header t + tl_totals t =? fst (snd (tl_ref t)) + 1) eqn:F.
-    + destruct (tc_insert c); discriminate.
-    + apply N.eqb_neq in F. destruct (tc_insert c); try discriminate; auto.
-Qed.
-
-Lemma table_dims_ok : forall t st lower,
+Lemma table_dims_ok : forall t nm st lower,
   table_dom t -> ref_style_legal st (tl_ref t) = true ->
-  fst (fst (tl_ref t)) + tl_header t + tl_totals t <> fst (snd (tl_ref t)) + 1 ->
-  table_dims (mkTmeta (tl_name t) (render_ref st lower (tl_ref t)) (tl_header t) false (tl_totals t))
-  = Ok (data_box t).
+  table_dims (mkTmeta nm (render_ref st lower (tl_ref t)) (tl_header t) (tl_insert t) (tl_totals t))
+  = Ok (impl_dims t).
 Proof.
-  intros t st lower (D1 & D2 & D3 & D4) L NE. unfold table_dims.
+  intros t nm st lower (D1 & D2 & D3 & D4) L. unfold table_dims, impl_dims, tl_below in *.
   cbn [tm_ref tm_header tm_totals tm_insert].
   rewrite merge_ref_roundtrip by (try apply xlsx_dims_limit; assumption).
-  cbn [obind]. unfold data_box. destruct (tl_ref t) as [[sr sc] [er ec]].
+  cbn [obind]. destruct (tl_ref t) as [[sr sc] [er ec]].
   destruct D1 as (A & B & C & E). cbn [fst snd] in *. unfold XLSX_ROWS, XLSX_COLS in *.
-  destruct (N.eqb_spec (tl_header t) 0) as [H0|H0]; destruct (N.eqb_spec (tl_totals t) 0) as [T0|T0];
-    unfold add32, sub32, U32MAX; cbn [obind].
-  - rewrite H0, T0. repeat f_equal; lia.
-  - destruct (tl_totals t <=? er) eqn:X; [|apply N.leb_gt in X; lia]. cbn [obind].
-    rewrite H0. repeat f_equal; lia.
-  - destruct (sr + tl_header t <=? 4294967295) eqn:X; [|apply N.leb_gt in X; lia]. cbn [obind].
-    rewrite T0. repeat f_equal; lia.
-  - destruct (sr + tl_header t <=? 4294967295) eqn:X; [|apply N.leb_gt in X; lia]. cbn [obind].
-    destruct (tl_totals t <=? er) eqn:Y; [|apply N.leb_gt in Y; lia]. reflexivity.
+  set (ins := if tl_insert t then 1 else 0) in *.
+  assert (I : ins <= 1) by (unfold ins; destruct (tl_insert t); lia).
+  assert (X1 : (if tl_header t =? 0 then Ok sr
+                else if sr + tl_header t <=? U32MAX then Ok (sr + tl_header t) else Err E_UNEXPECTED)
+               = Ok (sr + tl_header t)).
+  { destruct (N.eqb_spec (tl_header t) 0) as [H0|H0]; [rewrite H0; f_equal; lia|].
+    unfold U32MAX. destruct (N.leb_spec (sr + tl_header t) 4294967295); [reflexivity|lia]. }
+  rewrite X1. cbn [obind].
+  assert (X2 : (tl_totals t + ins <=? U32MAX) = true) by (apply N.leb_le; unfold U32MAX; lia).
+  rewrite X2. cbn [obind]. destruct (tl_totals t + ins <=? er); reflexivity.
+Qed.
+
+(* what can be observed of that box is the declared data box *)
+Lemma impl_dims_obs : forall t, table_dom t ->
+  (if no_data (impl_dims t) then None else Some (impl_dims t)) = data_box t.
+Proof.
+  intros t (D1 & D2 & D3 & D4). unfold impl_dims, data_box, no_data, tl_below in *.
+  destruct (tl_ref t) as [[sr sc] [er ec]]. destruct D1 as (A & B & C & E). cbn [fst snd] in *.
+  set (ins := if tl_insert t then 1 else 0) in *.
+  destruct (N.leb_spec (tl_totals t + ins) er) as [L1|L1]; cbn [fst snd].
+  - destruct (N.leb_spec (sr + tl_header t + (tl_totals t + ins)) er) as [L2|L2].
+    + destruct (N.ltb_spec (er - (tl_totals t + ins)) (sr + tl_header t)); [lia|].
+      destruct (N.ltb_spec ec sc); [lia|]. reflexivity.
+    + destruct (N.ltb_spec (er - (tl_totals t + ins)) (sr + tl_header t)); [reflexivity|lia].
+  - destruct (N.leb_spec (sr + tl_header t + (tl_totals t + ins)) er) as [L2|L2]; [lia|].
+    destruct (N.ltb_spec er (N.max (sr + tl_header t) (er + 1))); [reflexivity|lia].
 Qed.
 
 Definition zip_has_tables (z : zip) (wb : list sheet_e) : Prop :=
@@ -806,33 +1014,30 @@ Definition zip_has_tables (z : zip) (wb : list sheet_e) : Prop :=
     zip_find z (se_rels_path s) = (if has_rels s then Some (enc_rels s) else None) /\
     forall tc, In tc (se_tables s) -> zip_find z (table_part_path (snd tc)) = Some (enc_table tc).
 
+(* the list load_tables builds for a workbook of the domain *)
+Definition impl_entry (sheet : str) (t : table_l) : table_entry :=
+  (tl_name t, sheet, tl_cols t, impl_dims t).
+Definition impl_tables (wb : list sheet_e) : list table_entry :=
+  flat_map (fun s => map (fun tc => impl_entry (se_name s) (fst tc)) (se_tables s)) wb.
+
 Lemma read_table_files_exact : forall z name tabs,
   (forall tc, In tc tabs -> zip_find z (table_part_path (snd tc)) = Some (enc_table tc)) ->
-  (forall tc, In tc tabs -> table_choice_legal tc = true /\ known_table tc = None /\ table_dom (fst tc)) ->
+  (forall tc, In tc tabs -> table_choice_legal tc = true /\ table_dom (fst tc)) ->
   read_table_files z name (map (fun tc => table_part_path (snd tc)) tabs) =
-  Ok (map (fun tc => spec_table name (fst tc)) tabs).
+  Ok (map (fun tc => impl_entry name (fst tc)) tabs).
 Proof.
   intros z name tabs. induction tabs as [|tc tabs IH]; intros HZ HP; [reflexivity|].
   cbn [map read_table_files]. rewrite (HZ tc (or_introl eq_refl)).
-  destruct (HP tc (or_introl eq_refl)) as (L & K & D).
-  destruct (known_legal_table _ K L) as (_ & F & N1 & N2 & NE).
+  destruct (HP tc (or_introl eq_refl)) as (L & D).
   destruct (table_choice_legal_parts _ L) as (RL & _).
-  destruct D as (D1 & D2 & D3 & D4).
+  pose proof D as (D1 & D2 & D3 & D4).
   rewrite scan_enc_table; [|exact L|unfold U32MAX; lia|unfold U32MAX; lia].
-  cbn [obind fst snd]. rewrite F. rewrite esc_id by exact N1. rewrite map_esc_id by exact N2.
-  rewrite table_dims_ok; [|exact (conj D1 (conj D2 (conj D3 D4)))|exact RL|exact NE].
-  cbn [obind]. rewrite IH.
+  cbn [obind fst snd].
+  rewrite table_dims_ok; [|exact D|exact RL].
+  cbn [obind tm_name]. rewrite IH.
   - reflexivity.
   - intros tc' I. apply HZ. right. exact I.
   - intros tc' I. apply HP. right. exact I.
-Qed.
-
-Lemma first_some_none : forall (A B : Type) (f : A -> option B) l,
-  first_some f l = None -> forall x, In x l -> f x = None.
-Proof.
-  induction l as [|y l IH]; intros H x I; [contradiction|].
-  cbn in H. destruct (f y) eqn:E; [discriminate|]. destruct I as [I|I]; [subst; exact E|].
-  apply IH; assumption.
 Qed.
 
 Lemma sheet_dom_tables : forall s tc, sheet_dom s -> In tc (se_tables s) -> table_dom (fst tc).
@@ -840,71 +1045,104 @@ Proof.
   intros s tc [_ D] I. rewrite Forall_forall in D. apply D. apply in_map. exact I.
 Qed.
 
-(* table_meta_exact: name, sheet, columns in order and the data box of every table, in the order
-   sheets x relationships *)
-Theorem table_meta_exact : forall z wb,
-  legal wb = true -> Forall sheet_dom wb -> known_C17 wb = None -> zip_has_tables z wb ->
-  read_table_metadata z (sheets_of wb) = Ok (spec_tables wb).
+Lemma read_table_metadata_impl : forall z wb,
+  legal wb = true -> Forall sheet_dom wb -> zip_has_tables z wb ->
+  read_table_metadata z (sheets_of wb) = Ok (impl_tables wb).
 Proof.
-  intros z wb. induction wb as [|s wb IH]; intros HL HD HK HZ; [reflexivity|].
+  intros z wb. induction wb as [|s wb IH]; intros HL HD HZ; [reflexivity|].
   cbn [sheets_of map read_table_metadata].
   assert (SL : sheet_legal s = true) by (apply (legal_in (s :: wb)); [exact HL|left; reflexivity]).
   destruct (sheet_legal_parts _ SL) as (_ & TL & _ & _ & _ & _ & _ & _ & NS).
   rewrite rels_location_sheet by exact NS. cbn [obind fst snd].
   destruct (HZ s (or_introl eq_refl)) as [Z1 Z2]. rewrite Z1.
   inversion HD as [|? ? HD1 HD2]; subst.
-  unfold known_C17 in HK. cbn [first_some] in HK.
-  destruct (known_sheet s) eqn:KS; [discriminate|].
-  assert (REST : read_table_metadata z (sheets_of wb) = Ok (spec_tables wb)).
+  assert (REST : read_table_metadata z (sheets_of wb) = Ok (impl_tables wb)).
   { apply IH.
     - cbn [legal forallb] in HL. apply andb_true_iff in HL. apply HL.
     - exact HD2.
-    - exact HK.
     - intros s' I. apply HZ. right. exact I. }
   fold (sheets_of wb). rewrite REST.
-  assert (TP : forall tc, In tc (se_tables s) ->
-               table_choice_legal tc = true /\ known_table tc = None /\ table_dom (fst tc)).
-  { intros tc I. split; [|split].
+  assert (TP : forall tc, In tc (se_tables s) -> table_choice_legal tc = true /\ table_dom (fst tc)).
+  { intros tc I. split.
     - rewrite forallb_forall in TL. apply TL. exact I.
-    - eapply first_some_none; [exact KS|exact I].
     - eapply sheet_dom_tables; [exact HD1|exact I]. }
-  unfold spec_tables. cbn [flat_map]. fold (spec_tables wb).
+  unfold impl_tables. cbn [flat_map]. fold (impl_tables wb).
   destruct (has_rels s) eqn:HR.
   - rewrite scan_enc_rels; [|exact SL|].
     + cbn [obind]. rewrite read_table_files_exact by assumption. reflexivity.
-    + apply Forall_forall. intros tc I. destruct (TP tc I) as (L & K & _).
-      apply (known_legal_table _ K L).
+    + apply Forall_forall. intros tc I. destruct (TP tc I) as (L & _).
+      apply (table_choice_legal_parts _ L).
   - unfold has_rels in HR. rewrite !orb_false_iff in HR. destruct HR as [[_ HR] _].
     destruct (se_tables s); [reflexivity|discriminate HR].
 Qed.
 
-(* table_names / table_names_in_sheet on the loaded list *)
-Lemma table_names_exact : forall wb,
-  table_names (spec_tables wb) = flat_map (fun s => map (fun tc => tl_name (fst tc)) (se_tables s)) wb.
+Lemma impl_tables_obs : forall wb, Forall sheet_dom wb ->
+  map entry_obs (impl_tables wb) = spec_tables wb.
 Proof.
-  unfold table_names, spec_tables. induction wb as [|s wb IH]; [reflexivity|].
+  unfold impl_tables, spec_tables. induction wb as [|s wb IH]; intros HD; [reflexivity|].
+  inversion HD as [|? ? HD1 HD2]; subst. cbn [flat_map]. rewrite map_app, IH by exact HD2.
+  f_equal. rewrite map_map. apply map_ext_in. intros tc I.
+  unfold entry_obs, impl_entry, spec_table, te_name, te_sheet, te_cols, te_dims. cbn [fst snd].
+  rewrite impl_dims_obs; [reflexivity|]. eapply sheet_dom_tables; [exact HD1|exact I].
+Qed.
+
+(* table_meta_exact: name, sheet, columns in order and the data box of every table, in the order
+   sheets x relationships — for every legal way of writing them, no class of inputs excepted *)
+Theorem table_meta_exact : forall z wb,
+  legal wb = true -> Forall sheet_dom wb -> zip_has_tables z wb ->
+  exists tables,
+    read_table_metadata z (sheets_of wb) = Ok tables /\ map entry_obs tables = spec_tables wb.
+Proof.
+  intros z wb HL HD HZ. exists (impl_tables wb).
+  split; [apply read_table_metadata_impl; assumption|apply impl_tables_obs; exact HD].
+Qed.
+
+(* table_names / table_names_in_sheet on a loaded list that shows the declared tables *)
+Lemma spec_names : forall wb,
+  map ts_name (spec_tables wb) = flat_map (fun s => map (fun tc => tl_name (fst tc)) (se_tables s)) wb.
+Proof.
+  unfold spec_tables. induction wb as [|s wb IH]; [reflexivity|].
   cbn [flat_map]. rewrite map_app, IH. f_equal. rewrite map_map. reflexivity.
 Qed.
 
+Lemma table_names_obs : forall tables, table_names tables = map ts_name (map entry_obs tables).
+Proof. intros tables. unfold table_names. rewrite map_map. reflexivity. Qed.
+
+Lemma table_names_exact : forall wb tables, map entry_obs tables = spec_tables wb ->
+  table_names tables = flat_map (fun s => map (fun tc => tl_name (fst tc)) (se_tables s)) wb.
+Proof. intros wb tables H. rewrite table_names_obs, H. apply spec_names. Qed.
+
+Definition ts_sheet (t : table_spec) : str := snd (fst (fst t)).
+
+Lemma tnis_obs : forall tables name,
+  table_names_in_sheet tables name =
+  map ts_name (filter (fun t => str_eqb (ts_sheet t) name) (map entry_obs tables)).
+Proof.
+  intros tables name. unfold table_names_in_sheet.
+  induction tables as [|e tables IH]; [reflexivity|].
+  cbn [map filter]. change (ts_sheet (entry_obs e)) with (te_sheet e).
+  destruct (str_eqb (te_sheet e) name); cbn [map]; rewrite IH; reflexivity.
+Qed.
+
 Lemma tnis_sheet : forall sheet name (tabs : list (table_l * table_choice)),
-  map te_name (filter (fun t => str_eqb (te_sheet t) name)
+  map ts_name (filter (fun t => str_eqb (ts_sheet t) name)
                       (map (fun tc => spec_table sheet (fst tc)) tabs)) =
   if str_eqb sheet name then map (fun tc => tl_name (fst tc)) tabs else [].
 Proof.
   intros sheet name. induction tabs as [|tc tabs IH]; cbn [map filter].
   - destruct (str_eqb sheet name); reflexivity.
-  - change (te_sheet (spec_table sheet (fst tc))) with sheet.
+  - change (ts_sheet (spec_table sheet (fst tc))) with sheet.
     destruct (str_eqb sheet name) eqn:E.
     + cbn [map]. rewrite IH. reflexivity.
     + exact IH.
 Qed.
 
-Lemma table_names_in_sheet_exact : forall wb name,
-  table_names_in_sheet (spec_tables wb) name =
+Lemma table_names_in_sheet_exact : forall wb tables name, map entry_obs tables = spec_tables wb ->
+  table_names_in_sheet tables name =
   flat_map (fun s => if str_eqb (se_name s) name
                      then map (fun tc => tl_name (fst tc)) (se_tables s) else []) wb.
 Proof.
-  intros wb name. unfold table_names_in_sheet, spec_tables.
+  intros wb tables name H. rewrite tnis_obs, H. clear H tables. unfold spec_tables.
   induction wb as [|s wb IH]; [reflexivity|].
   cbn [flat_map]. rewrite filter_app, map_app, IH. f_equal. apply tnis_sheet.
 Qed.
@@ -922,10 +1160,10 @@ Proof.
     + apply IH; assumption.
 Qed.
 
-Lemma spec_tables_in : forall wb s tc, In s wb -> In tc (se_tables s) ->
-  In (spec_table (se_name s) (fst tc)) (spec_tables wb).
+Lemma impl_tables_in : forall wb s tc, In s wb -> In tc (se_tables s) ->
+  In (impl_entry (se_name s) (fst tc)) (impl_tables wb).
 Proof.
-  intros wb s tc I1 I2. unfold spec_tables. apply in_flat_map. exists s. split; [exact I1|].
+  intros wb s tc I1 I2. unfold impl_tables. apply in_flat_map. exists s. split; [exact I1|].
   apply in_map_iff. exists tc. split; [reflexivity|exact I2].
 Qed.
 
@@ -936,50 +1174,73 @@ Definition WindowSpec : Prop :=
     exists w, window d r s e = Ok w /\ Wf w /\ rect w = Some (s, e) /\
       forall q, get_value w q = if in_box s e q then Some (cell_or d r q) else None.
 
+Lemma get_value_empty : forall (T : Type) q, get_value (@empty T) q = None.
+Proof.
+  intros T [qr qc]. unfold get_value, empty. cbn [r_start r_end fst snd].
+  destruct ((0 <=? qr) && (qr <=? 0) && (0 <=? qc) && (qc <=? 0)); [|reflexivity].
+  unfold get, width, is_empty. cbn [r_inner].
+  assert (X : (0 <=? qc - 0) = true) by (apply N.leb_le; lia). rewrite X. reflexivity.
+Qed.
+
+(* the cells of an optional box *)
+Definition box_fits (ob : option dims) : Prop :=
+  match ob with Some b => box_cells (fst b) (snd b) <= U32MAX | None => True end.
+Definition box_value (T : Type) (d : T) (r : range T) (ob : option dims) (q : pos) : option T :=
+  match ob with
+  | Some b => if in_box (fst b) (snd b) q then Some (cell_or d r q) else None
+  | None => None
+  end.
+
 (* table_geometry: the table data is the sheet's values over the data box — the reference minus
-   the header rows at the top and the totals rows at the bottom — wherever the box lies relative
-   to the used range; cells outside the used range come back as the default (Empty) *)
+   the header rows at the top and the totals rows / insert row at the bottom — wherever the box
+   lies relative to the used range; cells outside the used range come back as the default
+   (Empty); a table without data rows yields the empty range *)
 Theorem table_geometry_gen : WindowSpec ->
   forall (T : Type) (d : T) (sheet_range : str -> outcome (range T)) z wb s tc r,
-  legal wb = true -> Forall sheet_dom wb -> known_C17 wb = None -> zip_has_tables z wb ->
-  NoDup (table_names (spec_tables wb)) ->
+  legal wb = true -> Forall sheet_dom wb -> zip_has_tables z wb ->
+  NoDup (map ts_name (spec_tables wb)) ->
   In s wb -> In tc (se_tables s) ->
   sheet_range (se_name s) = Ok r -> Wf r ->
-  box_cells (fst (data_box (fst tc))) (snd (data_box (fst tc))) <= U32MAX ->
+  box_fits (data_box (fst tc)) ->
   exists tables w,
     read_table_metadata z (sheets_of wb) = Ok tables /\
     table_by_name d sheet_range tables (tl_name (fst tc)) =
       Ok (tl_name (fst tc), se_name s, tl_cols (fst tc), w) /\
-    Wf w /\ rect w = Some (data_box (fst tc)) /\
-    forall q, get_value w q =
-      if in_box (fst (data_box (fst tc))) (snd (data_box (fst tc))) q
-      then Some (cell_or d r q) else None.
+    Wf w /\ rect w = data_box (fst tc) /\
+    forall q, get_value w q = box_value d r (data_box (fst tc)) q.
 Proof.
-  intros WS T d sheet_range z wb s tc r HL HD HK HZ ND I1 I2 HR WF BC.
-  exists (spec_tables wb).
-  assert (SL : sheet_legal s = true) by (apply (legal_in wb); assumption).
-  destruct (sheet_legal_parts _ SL) as (_ & TL & _).
-  assert (L : table_choice_legal tc = true) by (rewrite forallb_forall in TL; apply TL; exact I2).
-  assert (K : known_table tc = None).
-  { eapply first_some_none; [|exact I2]. eapply (@first_some_none _ _ known_sheet wb); [exact HK|exact I1]. }
-  destruct (known_legal_table _ K L) as (_ & _ & _ & _ & NE).
+  intros WS T d sheet_range z wb s tc r HL HD HZ ND I1 I2 HR WF BC.
+  exists (impl_tables wb).
   assert (D : table_dom (fst tc)).
   { rewrite Forall_forall in HD. eapply sheet_dom_tables; [apply HD; exact I1|exact I2]. }
-  assert (LE : le2 (fst (data_box (fst tc))) (snd (data_box (fst tc)))).
-  { destruct D as ((A & B & _) & D2 & D3 & D4). unfold data_box, le2. cbn [fst snd]. lia. }
-  destruct (WS T d r _ _ WF LE BC) as (w & W1 & W2 & W3 & W4).
-  exists w. split; [apply table_meta_exact; assumption|].
-  split; [|split; [exact W2|split; [|exact W4]]].
-  - unfold table_by_name.
-    pose proof (spec_tables_in wb s tc I1 I2) as IN.
-    pose proof (get_table_meta_nodup (spec_tables wb) _ ND IN) as G.
-    change (te_name (spec_table (se_name s) (fst tc))) with (tl_name (fst tc)) in G.
-    rewrite G. cbn [obind].
-    change (te_sheet (spec_table (se_name s) (fst tc))) with (se_name s).
+  assert (G : get_table_meta (impl_tables wb) (tl_name (fst tc)) = Ok (impl_entry (se_name s) (fst tc))).
+  { apply (get_table_meta_nodup (impl_tables wb) (impl_entry (se_name s) (fst tc))).
+    - replace (map te_name (impl_tables wb)) with (map ts_name (spec_tables wb)); [exact ND|].
+      rewrite <- (impl_tables_obs HD), map_map. reflexivity.
+    - apply impl_tables_in; assumption. }
+  pose proof (impl_dims_obs D) as OBS.
+  assert (TB : forall w, (if no_data (impl_dims (fst tc)) then Ok (@empty T)
+                          else window d r (fst (impl_dims (fst tc))) (snd (impl_dims (fst tc)))) = Ok w ->
+               table_by_name d sheet_range (impl_tables wb) (tl_name (fst tc)) =
+               Ok (tl_name (fst tc), se_name s, tl_cols (fst tc), w)).
+  { intros w W. unfold table_by_name. rewrite G. cbn [obind].
+    change (te_sheet (impl_entry (se_name s) (fst tc))) with (se_name s).
     rewrite HR. cbn [obind].
-    change (te_dims (spec_table (se_name s) (fst tc))) with (data_box (fst tc)).
-    rewrite W1. reflexivity.
-  - rewrite W3. destruct (data_box (fst tc)). reflexivity.
+    change (te_dims (impl_entry (se_name s) (fst tc))) with (impl_dims (fst tc)).
+    rewrite W. reflexivity. }
+  destruct (no_data (impl_dims (fst tc))) eqn:ND0.
+  - exists (@empty T). split; [apply read_table_metadata_impl; assumption|].
+    split; [apply TB; reflexivity|]. rewrite <- OBS.
+    split; [left; reflexivity|]. split; [reflexivity|].
+    intros q. apply get_value_empty.
+  - rewrite <- OBS in BC |- *. cbn [box_fits box_value] in *.
+    assert (LE : le2 (fst (impl_dims (fst tc))) (snd (impl_dims (fst tc)))).
+    { unfold no_data in ND0. apply orb_false_iff in ND0. destruct ND0 as [N1 N2].
+      apply N.ltb_ge in N1. apply N.ltb_ge in N2. split; assumption. }
+    destruct (WS T d r _ _ WF LE BC) as (w & W1 & W2 & W3 & W4).
+    exists w. split; [apply read_table_metadata_impl; assumption|].
+    split; [apply TB; exact W1|]. split; [exact W2|]. split; [|exact W4].
+    rewrite W3. destruct (impl_dims (fst tc)). reflexivity.
 Qed.
 
 (* ================================================================== xls *)
@@ -1233,19 +1494,17 @@ Proof. split; reflexivity. Qed.
 (* ================================================================== closing the premise *)
 Theorem table_geometry :
   forall (T : Type) (d : T) (sheet_range : str -> outcome (range T)) z wb s tc r,
-  legal wb = true -> Forall sheet_dom wb -> known_C17 wb = None -> zip_has_tables z wb ->
-  NoDup (table_names (spec_tables wb)) ->
+  legal wb = true -> Forall sheet_dom wb -> zip_has_tables z wb ->
+  NoDup (map ts_name (spec_tables wb)) ->
   In s wb -> In tc (se_tables s) ->
   sheet_range (se_name s) = Ok r -> Wf r ->
-  box_cells (fst (data_box (fst tc))) (snd (data_box (fst tc))) <= U32MAX ->
+  box_fits (data_box (fst tc)) ->
   exists tables w,
     read_table_metadata z (sheets_of wb) = Ok tables /\
     table_by_name d sheet_range tables (tl_name (fst tc)) =
       Ok (tl_name (fst tc), se_name s, tl_cols (fst tc), w) /\
-    Wf w /\ rect w = Some (data_box (fst tc)) /\
-    forall q, get_value w q =
-      if in_box (fst (data_box (fst tc))) (snd (data_box (fst tc))) q
-      then Some (cell_or d r q) else None.
+    Wf w /\ rect w = data_box (fst tc) /\
+    forall q, get_value w q = box_value d r (data_box (fst tc)) q.
 Proof. exact (table_geometry_gen window_spec). Qed.
 
 (* the same with the sheet's range spelled out: worksheet_range is Range::from_sparse over the
@@ -1253,30 +1512,34 @@ Proof. exact (table_geometry_gen window_spec). Qed.
    the last value written at q inside the used range, the default (Empty) outside it *)
 Corollary table_geometry_cells :
   forall (T : Type) (d : T) (cells : list (str * list (pos * T))) z wb s tc sc,
-  legal wb = true -> Forall sheet_dom wb -> known_C17 wb = None -> zip_has_tables z wb ->
-  NoDup (table_names (spec_tables wb)) ->
+  legal wb = true -> Forall sheet_dom wb -> zip_has_tables z wb ->
+  NoDup (map ts_name (spec_tables wb)) ->
   In s wb -> In tc (se_tables s) ->
   find (fun sc => str_eqb (fst sc) (se_name s)) cells = Some sc ->
   pre empty (OFromSparse (snd sc)) ->
-  box_cells (fst (data_box (fst tc))) (snd (data_box (fst tc))) <= U32MAX ->
+  box_fits (data_box (fst tc)) ->
   exists tables w r,
     read_table_metadata z (sheets_of wb) = Ok tables /\
     from_sparse d (snd sc) = Ok r /\ rect r = tight_bbox (map fst (snd sc)) /\
     table_by_name d (sheet_range_of d cells) tables (tl_name (fst tc)) =
       Ok (tl_name (fst tc), se_name s, tl_cols (fst tc), w) /\
-    rect w = Some (data_box (fst tc)) /\
+    rect w = data_box (fst tc) /\
     forall q, get_value w q =
-      if in_box (fst (data_box (fst tc))) (snd (data_box (fst tc))) q
-      then Some (if in_rect r q then last_write d (snd sc) q else d) else None.
+      match data_box (fst tc) with
+      | Some b => if in_box (fst b) (snd b) q
+                  then Some (if in_rect r q then last_write d (snd sc) q else d) else None
+      | None => None
+      end.
 Proof.
-  intros T d cells z wb s tc sc HL HD HK HZ ND I1 I2 HF HP BC.
+  intros T d cells z wb s tc sc HL HD HZ ND I1 I2 HF HP BC.
   destruct (from_sparse_spec d HP) as (r & R1 & R2 & R3 & R4).
   assert (SR : sheet_range_of d cells (se_name s) = Ok r).
   { unfold sheet_range_of. rewrite HF. exact R1. }
-  destruct (@table_geometry T d (sheet_range_of d cells) z wb s tc r HL HD HK HZ ND I1 I2 SR R2 BC)
+  destruct (@table_geometry T d (sheet_range_of d cells) z wb s tc r HL HD HZ ND I1 I2 SR R2 BC)
     as (tables & w & A & B & C & D & E).
   exists tables, w, r. repeat split; try assumption.
-  intros q. rewrite E. destruct (in_box _ _ q); [|reflexivity].
+  intros q. rewrite E. unfold box_value. destruct (data_box (fst tc)) as [bx|]; [|reflexivity].
+  destruct (in_box _ _ q); [|reflexivity].
   f_equal. unfold cell_or. rewrite R4. destruct (in_rect r q); reflexivity.
 Qed.
 
@@ -1315,24 +1578,56 @@ Definition x_S1 : str := [83; 49].
 Definition x_sheet1 : str := [115; 104; 101; 101; 116; 49; 46; 120; 109; 108].
 Definition x_T1 : str := [84; 49].
 Definition x_table1 : str := [116; 97; 98; 108; 101; 49; 46; 120; 109; 108].
+Definition x_table2 : str := [116; 97; 98; 108; 101; 50; 46; 120; 109; 108].
+Definition x_table3 : str := [116; 97; 98; 108; 101; 51; 46; 120; 109; 108].
 Definition x_rId1 : str := [114; 73; 100; 49].
+Definition x_rId2 : str := [114; 73; 100; 50].
+Definition x_rId3 : str := [114; 73; 100; 51].
 Definition x_a : str := [97].
 Definition x_b : str := [98].
+Definition x_H : str := [72].
+Definition x_X : str := [88].
 Definition x_PL : str := [80; 38; 76].                 (* "P&L" *)
+Definition x_blt : str := [98; 60; 195; 164].          (* "b<ä" *)
 
-Definition ex_choice : table_choice :=
+(* a plain choice: "../tables/table1.xml", transitional type, names escaped the usual way *)
+Definition choice_for (t : table_l) : table_choice :=
   mkTableChoice x_table1 x_rId1 TgtDotDot TyTransitional false RefPair false false false IrAbsent
+                (esc_sp (tl_name t)) (map esc_sp (tl_cols t))
                 [] [] None [ERaw [60; 63; 120; 63; 62]].
 (* table B2:C5 with a header row and a totals row: data box B3:C4 *)
-Definition ex_table : table_l := mkTable x_T1 [x_a; x_b] ((1, 1), (4, 2)) 1 1.
-Definition ex_sheet_with (t : table_l) (c : table_choice) : sheet_e :=
+Definition ex_table : table_l := mkTable x_T1 [x_a; x_b] ((1, 1), (4, 2)) 1 1 false.
+Definition ex_choice : table_choice := choice_for ex_table.
+
+Definition ex_sheet_tabs (tabs : list (table_l * table_choice)) : sheet_e :=
   mkSheetE x_S1 x_sheet1
     [(((0, 0), (1, 1)), reg_default);
      (((1048575, 16383), (1048575, 16383)), mkRegChoice RefSingle true [(s_count, s_one)] [] [EText [10]]);
      (((2, 26), (3, 702)), mkRegChoice RefPair true [] [(s_count, s_one)] [])]
-    [(t, c)] (Some [120]) [EStart [120; 58; 119] []; EText [32]] [EEnd [120; 58; 119]]
+    tabs (Some [120]) [EStart [120; 58; 119] []; EText [32]] [EEnd [120; 58; 119]]
     false [EText [10]] None [(x_rId1, s_table_type_strict ++ [120], x_a)] false [(x_a, x_b)].
-Definition ex_wb : list sheet_e := [ex_sheet_with ex_table ex_choice].
+Definition ex_sheet_with (t : table_l) (c : table_choice) : sheet_e := ex_sheet_tabs [(t, c)].
+
+(* the example workbook uses every form that the first round had to except:
+   table 1: strict relationship type, absolute target, display name "T1" written "T&#x31;",
+            columns "P&L" written "P&amp;L" and "b<ä" written "b&#060;&#xE4;", insertRow="false";
+   table 2: header row only (B7:C7): no data rows;
+   table 3: totals row only, in row 1 (E1:F1): no data rows *)
+Definition ex_t1 : table_l := mkTable x_T1 [x_PL; x_blt] ((1, 1), (4, 2)) 1 1 false.
+Definition ex_c1 : table_choice :=
+  mkTableChoice x_table1 x_rId1 TgtAbsolute TyStrict true RefPair false false false IrFalse
+                [PLit [84]; PHex 49 2 true]
+                [[PLit [80]; PNamed 38; PLit [76]]; [PLit [98]; PDec 60 3; PHex 228 2 true]]
+                [] [] None [ERaw [60; 63; 120; 63; 62]].
+Definition ex_t2 : table_l := mkTable x_H [x_a; x_b] ((6, 1), (6, 2)) 1 0 false.
+Definition ex_c2 : table_choice :=
+  mkTableChoice x_table2 x_rId2 TgtDotDot TyTransitional false RefPair true true true IrZero
+                [PLit x_H] [[PLit x_a]; [PLit x_b]] [] [] None [].
+Definition ex_t3 : table_l := mkTable x_X [x_a; x_b] ((0, 4), (0, 5)) 0 1 false.
+Definition ex_c3 : table_choice :=
+  mkTableChoice x_table3 x_rId3 TgtDotDot TyStrict false RefPair false false true IrAbsent
+                [PLit x_X] [[PLit x_a]; [PLit x_b]] [] [] (Some [120]) [].
+Definition ex_wb : list sheet_e := [ex_sheet_tabs [(ex_t1, ex_c1); (ex_t2, ex_c2); (ex_t3, ex_c3)]].
 
 Lemma zip_has_sheets_build1 : forall s, zip_has_sheets (build_zip [s]) [s].
 Proof.
@@ -1341,35 +1636,45 @@ Proof.
 Qed.
 
 Example ex_wb_nonvacuous :
-  legal ex_wb = true /\ Forall sheet_dom ex_wb /\ known_C17 ex_wb = None /\
+  legal ex_wb = true /\ Forall sheet_dom ex_wb /\
   zip_has_sheets (build_zip ex_wb) ex_wb /\ zip_has_tables (build_zip ex_wb) ex_wb /\
-  NoDup (map se_name ex_wb) /\ NoDup (table_names (spec_tables ex_wb)) /\
+  NoDup (map se_name ex_wb) /\ NoDup (map ts_name (spec_tables ex_wb)) /\
   read_merged_regions (build_zip ex_wb) (sheets_of ex_wb) =
     Ok [(x_S1, s_xl_worksheets ++ x_sheet1, ((0, 0), (1, 1)));
         (x_S1, s_xl_worksheets ++ x_sheet1, ((1048575, 16383), (1048575, 16383)));
         (x_S1, s_xl_worksheets ++ x_sheet1, ((2, 26), (3, 702)))] /\
   read_table_metadata (build_zip ex_wb) (sheets_of ex_wb) =
-    Ok [(x_T1, x_S1, [x_a; x_b], ((2, 1), (3, 2)))].
+    Ok [(x_T1, x_S1, [x_PL; x_blt], ((2, 1), (3, 2)));
+        (x_H, x_S1, [x_a; x_b], ((7, 1), (6, 2)));
+        (x_X, x_S1, [x_a; x_b], ((1, 4), (0, 5)))] /\
+  spec_tables ex_wb =
+    [(x_T1, x_S1, [x_PL; x_blt], Some ((2, 1), (3, 2)));
+     (x_H, x_S1, [x_a; x_b], None); (x_X, x_S1, [x_a; x_b], None)].
 Proof.
   split; [vm_compute; reflexivity|].
   split; [apply wb_domb_ok; vm_compute; reflexivity|].
-  split; [vm_compute; reflexivity|].
   split; [apply zip_has_sheets_build1|].
   split.
   { intros s [<-|[]]. split; [vm_compute; reflexivity|].
-    intros tc [<-|[]]. vm_compute. reflexivity. }
+    intros tc [<-|[<-|[<-|[]]]]; vm_compute; reflexivity. }
   split; [repeat constructor; intros []|].
-  split; [repeat constructor; intros []|].
-  split; vm_compute; reflexivity.
+  split.
+  { vm_compute. repeat constructor; cbn; intuition discriminate. }
+  split; [vm_compute; reflexivity|]. split; vm_compute; reflexivity.
 Qed.
 
 (* the table of the example lies partly outside a used range A1:B3: inside the overlap the
-   sheet's values, Empty (0) elsewhere *)
+   sheet's values, Empty (0) elsewhere; the two tables without data rows yield the empty range *)
 Example ex_table_data :
-  table_by_name 0 (fun _ => from_sparse 0 [((0, 0), 7); ((2, 1), 5)])
-                [(x_T1, x_S1, [x_a; x_b], ((2, 1), (3, 2)))] x_T1 =
-  Ok (x_T1, x_S1, [x_a; x_b], mkRange (2, 1) (3, 2) [5; 0; 0; 0]).
-Proof. vm_compute. reflexivity. Qed.
+  let tables := [(x_T1, x_S1, [x_PL; x_blt], ((2, 1), (3, 2)));
+                 (x_H, x_S1, [x_a; x_b], ((7, 1), (6, 2)));
+                 (x_X, x_S1, [x_a; x_b], ((1, 4), (0, 5)))] in
+  let range := fun _ : str => from_sparse 0 [((0, 0), 7); ((2, 1), 5)] in
+  table_by_name 0 range tables x_T1 =
+    Ok (x_T1, x_S1, [x_PL; x_blt], mkRange (2, 1) (3, 2) [5; 0; 0; 0]) /\
+  table_by_name 0 range tables x_H = Ok (x_H, x_S1, [x_a; x_b], empty) /\
+  table_by_name 0 range tables x_X = Ok (x_X, x_S1, [x_a; x_b], empty).
+Proof. repeat split; vm_compute; reflexivity. Qed.
 
 Example ex_cells_pre : pre (@empty N) (OFromSparse [((0, 0), 7); ((2, 1), 5)]).
 Proof.
@@ -1378,60 +1683,61 @@ Proof.
   - vm_compute. split; reflexivity.
 Qed.
 
-(* ---------- witnesses of the known classes ---------- *)
+(* ---------- the witnesses of the five retired classes, now regressions ----------
+   Each was a workbook on which the first-round model (and the code) departed from the file;
+   the repaired model computes the declared tables on every one of them. *)
 Definition wit (t : table_l) (c : table_choice) : list sheet_e := [ex_sheet_with t c].
 Definition load (wb : list sheet_e) := read_table_metadata (build_zip wb) (sheets_of wb).
 Definition set_target (c : table_choice) (x : target_style) : table_choice :=
   mkTableChoice (tc_part c) (tc_rid c) x (tc_type c) (tc_target_first c) (tc_ref_style c)
-                (tc_ref_lower c) (tc_hdr_explicit c) (tc_tot_explicit c) (tc_insert c) (tc_extra c)
-                (tc_col_extra c) (tc_prefix c) (tc_pre c).
+                (tc_ref_lower c) (tc_hdr_explicit c) (tc_tot_explicit c) (tc_insert c)
+                (tc_name_sp c) (tc_cols_sp c) (tc_extra c) (tc_col_extra c) (tc_prefix c) (tc_pre c).
 Definition set_type (c : table_choice) (x : type_style) : table_choice :=
   mkTableChoice (tc_part c) (tc_rid c) (tc_target c) x (tc_target_first c) (tc_ref_style c)
-                (tc_ref_lower c) (tc_hdr_explicit c) (tc_tot_explicit c) (tc_insert c) (tc_extra c)
-                (tc_col_extra c) (tc_prefix c) (tc_pre c).
+                (tc_ref_lower c) (tc_hdr_explicit c) (tc_tot_explicit c) (tc_insert c)
+                (tc_name_sp c) (tc_cols_sp c) (tc_extra c) (tc_col_extra c) (tc_prefix c) (tc_pre c).
 Definition set_insert (c : table_choice) (x : insert_style) : table_choice :=
   mkTableChoice (tc_part c) (tc_rid c) (tc_target c) (tc_type c) (tc_target_first c) (tc_ref_style c)
-                (tc_ref_lower c) (tc_hdr_explicit c) (tc_tot_explicit c) x (tc_extra c)
-                (tc_col_extra c) (tc_prefix c) (tc_pre c).
+                (tc_ref_lower c) (tc_hdr_explicit c) (tc_tot_explicit c) x
+                (tc_name_sp c) (tc_cols_sp c) (tc_extra c) (tc_col_extra c) (tc_prefix c) (tc_pre c).
+Definition meta_is (wb : list sheet_e) (stored : list table_entry) : Prop :=
+  legal wb = true /\ forallb sheet_domb wb = true /\
+  load wb = Ok stored /\ map entry_obs stored = spec_tables wb.
 
-(* a column named "P&L" comes back as "P&amp;L" *)
-Lemma refuted_escaped_text :
-  let wb := wit (mkTable x_T1 [x_PL; x_b] ((1, 1), (4, 2)) 1 1) ex_choice in
-  legal wb = true /\ forallb sheet_domb wb = true /\ known_C17 wb = Some K_ESCAPED_TEXT /\
-  load wb = Ok [(x_T1, x_S1, [[80; 38; 97; 109; 112; 59; 76]; x_b], ((2, 1), (3, 2)))] /\
-  load wb <> Ok (spec_tables wb).
-Proof. repeat split; try (vm_compute; reflexivity). vm_compute. discriminate. Qed.
+(* EscapedText: a column written "P&amp;L" is the column P&L *)
+Example fixed_escaped_text :
+  let t := mkTable x_T1 [x_PL; x_b] ((1, 1), (4, 2)) 1 1 false in
+  meta_is (wit t (choice_for t)) [(x_T1, x_S1, [x_PL; x_b], ((2, 1), (3, 2)))].
+Proof. repeat split; vm_compute; reflexivity. Qed.
 
-(* Target="/xl/tables/table1.xml": the table is not found at all *)
-Lemma refuted_absolute_target :
-  let wb := wit ex_table (set_target ex_choice TgtAbsolute) in
-  legal wb = true /\ forallb sheet_domb wb = true /\ known_C17 wb = Some K_ABSOLUTE_TARGET /\
-  load wb = Ok [] /\ load wb <> Ok (spec_tables wb).
-Proof. repeat split; try (vm_compute; reflexivity). vm_compute. discriminate. Qed.
+(* AbsoluteTarget: Target="/xl/tables/table1.xml" *)
+Example fixed_absolute_target :
+  meta_is (wit ex_table (set_target ex_choice TgtAbsolute)) [(x_T1, x_S1, [x_a; x_b], ((2, 1), (3, 2)))].
+Proof. repeat split; vm_compute; reflexivity. Qed.
 
-(* the relationship type of the strict conformance class is not recognised *)
-Lemma refuted_strict_type :
-  let wb := wit ex_table (set_type ex_choice TyStrict) in
-  legal wb = true /\ forallb sheet_domb wb = true /\ known_C17 wb = Some K_STRICT_TYPE /\
-  load wb = Ok [] /\ load wb <> Ok (spec_tables wb).
-Proof. repeat split; try (vm_compute; reflexivity). vm_compute. discriminate. Qed.
+(* StrictType: the relationship type of the strict conformance class *)
+Example fixed_strict_type :
+  meta_is (wit ex_table (set_type ex_choice TyStrict)) [(x_T1, x_S1, [x_a; x_b], ((2, 1), (3, 2)))].
+Proof. repeat split; vm_compute; reflexivity. Qed.
 
-(* insertRow="false" is read as true: the data box loses its last row *)
-Lemma refuted_insert_row_false :
-  let wb := wit ex_table (set_insert ex_choice IrFalse) in
-  legal wb = true /\ forallb sheet_domb wb = true /\ known_C17 wb = Some K_INSERT_ROW_FALSE /\
-  load wb = Ok [(x_T1, x_S1, [x_a; x_b], ((2, 1), (2, 2)))] /\ load wb <> Ok (spec_tables wb).
-Proof. repeat split; try (vm_compute; reflexivity). vm_compute. discriminate. Qed.
+(* InsertRowFalse: insertRow="false" leaves the last data row in place; insertRow="1" on a table
+   of header + insert row leaves no data *)
+Example fixed_insert_row :
+  meta_is (wit ex_table (set_insert ex_choice IrFalse)) [(x_T1, x_S1, [x_a; x_b], ((2, 1), (3, 2)))] /\
+  (let t := mkTable x_T1 [x_a; x_b] ((1, 1), (2, 2)) 1 0 true in
+   meta_is (wit t (set_insert (choice_for t) IrOne)) [(x_T1, x_S1, [x_a; x_b], ((2, 1), (1, 2)))]).
+Proof. repeat split; vm_compute; reflexivity. Qed.
 
-(* a table that consists of its header row only (B2:C2): load_tables succeeds with an inverted
-   box, table_by_name panics in Range::new; with a totals row only (A1:B1) load_tables itself
-   panics (0 - 1 in u32) *)
-Lemma refuted_empty_data :
-  let wb := wit (mkTable x_T1 [x_a; x_b] ((1, 1), (1, 2)) 1 0) ex_choice in
-  legal wb = true /\ forallb sheet_domb wb = true /\ known_C17 wb = Some K_EMPTY_DATA /\
-  load wb = Ok [(x_T1, x_S1, [x_a; x_b], ((2, 1), (1, 2)))] /\
-  table_by_name 0 (fun _ => Ok (@empty N)) [(x_T1, x_S1, [x_a; x_b], ((2, 1), (1, 2)))] x_T1 = Panic /\
-  load (wit (mkTable x_T1 [x_a; x_b] ((0, 0), (0, 1)) 0 1) ex_choice) = Panic.
+(* EmptyData: a header-only table (B2:C2) and a totals-only table in row 1 (A1:B1) load, and
+   table_by_name yields the empty range *)
+Example fixed_empty_data :
+  (let t := mkTable x_T1 [x_a; x_b] ((1, 1), (1, 2)) 1 0 false in
+   meta_is (wit t (choice_for t)) [(x_T1, x_S1, [x_a; x_b], ((2, 1), (1, 2)))] /\
+   spec_tables (wit t (choice_for t)) = [(x_T1, x_S1, [x_a; x_b], None)]) /\
+  (let t := mkTable x_T1 [x_a; x_b] ((0, 0), (0, 1)) 0 1 false in
+   meta_is (wit t (choice_for t)) [(x_T1, x_S1, [x_a; x_b], ((1, 0), (0, 1)))]) /\
+  table_by_name 0 (fun _ => Ok (@empty N)) [(x_T1, x_S1, [x_a; x_b], ((2, 1), (1, 2)))] x_T1 =
+    Ok (x_T1, x_S1, [x_a; x_b], empty).
 Proof. repeat split; vm_compute; reflexivity. Qed.
 
 (* outside the property's domain, recorded because the two access paths disagree: a reference
